@@ -746,8 +746,8 @@ var b1Exceptions = map[string]map[string]string{
 	},
 }
 
-var ruleB1 = &Rule{
-	ID:    "B1",
+var ruleB1old = &Rule{
+	ID:    "B1old",
 	Floor: 12,
 	Doc: "batch fields under the batch lock: every read or write of InsertServiceV2.columns/size/results/insertCtx/insertCancel/lastSend in a method of the service lies in a region where the service mutex is held " +
 		"(mtx.Lock() … mtx.Unlock() in the same statement list, or mtx.Lock(); defer mtx.Unlock() for the rest of the function body, including the func(){ Lock; defer Unlock; … }() idiom); reviewed exceptions are frozen per (function, field)",
@@ -882,7 +882,9 @@ var ruleB1 = &Rule{
 	},
 }
 
-func init() { register(ruleA3, ruleB1) }
+func init() { register(ruleA3) }
+
+var _ = ruleB1old
 
 var _ = ruleA2old
 var _ = ruleA4old
